@@ -10,11 +10,11 @@ Definition pcw (p : pc) : nat :=
   match p with
   | PIdle => 0 | PW0 _ _ => 7 | PW1 _ _ => 1 | PW2 _ _ => 6 | PW2wait _ _ => 5 | PW3 _ _ => 5
   | PW4 _ _ => 4 | PE0 _ _ => 3 | PC1 _ _ => 2 | PC2 _ _ => 1 | PC2wait _ _ => 0 | PO1 _ => 8
-  | PO0 => 9
+  | PO0 => 9 | PPwait => 8
   end.
 Definition callw (c : call) : nat :=
   match c with
-  | CWrite _ | CData _ => 8 | COpen => 10 | CClose => 3 | _ => 1
+  | CWrite _ | CData _ => 8 | COpen => 10 | CClose => 3 | CPump => 9 | _ => 1
   end.
 Fixpoint progw (p : list call) : nat := match p with [] => 0 | c :: r => callw c + progw r end.
 Definition mu (s : state) (t : tid) : nat := pcw (pcof s t) + progw (t_prog (tasks s t)).
@@ -60,13 +60,30 @@ Proof.
            | |- context [match ?x with _ => _ end] => destruct x eqn:?
            end; try reflexivity;
     try (apply prog_set_task_keep; reflexivity);
-    try apply prog_enter_close; try apply prog_set_pc.
+    try apply prog_enter_close; try apply prog_set_pc;
+    try (rewrite prog_enter_close; apply (mark_keeps (table s) (tasks s) u)).
 Qed.
 
+Lemma prog_push s t f u : t_prog (tasks (push_item s t f) u) = t_prog (tasks s u).
+Proof.
+  unfold push_item. destruct (pump_owner s) as [p|]; [|reflexivity].
+  destruct (is_ppwait (t_pc (tasks s p))); [destruct (closed s)|]; try reflexivity.
+  - apply (prog_finish (set_pump s (dq s) (pushed s ++ [(t, f)]) (pump_owner s) (pump_done s)) p ResClosed u).
+  - apply (prog_set_task_keep (set_pump s (dq s) (pushed s ++ [(t, f)]) (pump_owner s) (pump_done s)) p). reflexivity.
+Qed.
+Lemma prog_wake s u : t_prog (tasks (wake_pump_closed s) u) = t_prog (tasks s u).
+Proof.
+  unfold wake_pump_closed. destruct (pump_owner s) as [p|]; [|reflexivity].
+  destruct (is_ppwait (t_pc (tasks s p))); [|reflexivity]. apply (prog_finish s p ResClosed u).
+Qed.
+Arguments push_item : simpl never.
+Arguments wake_pump_closed : simpl never.
+
 Ltac progtac Hw :=
+  cbn [tasks set_pump set_dq set_pump_done];
   repeat first [ rewrite prog_finish_w | rewrite prog_finish | rewrite prog_set_pc | rewrite prog_finish_close
-               | rewrite prog_enter_close | rewrite prog_feed ];
-  cbn [tasks set_task set_tasks set_table set_buffering set_failing set_flags set_queue set_lock set_wire set_shut set_closed];
+               | rewrite prog_enter_close | rewrite prog_feed | rewrite prog_push | rewrite prog_wake ];
+  cbn [tasks set_task set_tasks set_table set_buffering set_failing set_flags set_queue set_lock set_wire set_shut set_closed set_pump set_dq set_pump_done];
   rewrite ?upd_other by exact Hw; try reflexivity.
 
 Theorem step_other_prog s t s' w :
@@ -89,11 +106,12 @@ Proof.
     + rewrite prog_set_pc. unfold release. rewrite prog_release_ws. reflexivity.
     + rewrite prog_finish_w. unfold release. rewrite prog_release_ws. reflexivity.
   - inversion H; subst; progtac Hw.
-  - inversion H; subst. rewrite prog_set_pc. cbn. apply prog_drain.
+  - cbv zeta in H. inversion H; subst. rewrite prog_set_pc. cbn [tasks set_table set_tasks]. rewrite prog_drain. apply prog_wake.
   - destruct (wr s); inversion H; subst; progtac Hw.
   - discriminate.
   - inversion H; subst; progtac Hw.
   - inversion H; subst; progtac Hw.
+  - discriminate.
 Qed.
 
 Lemma pcof_of_pcu s s' t p : pc_update s s' t p -> pcof s' t = p.
@@ -128,10 +146,24 @@ Proof.
       * rewrite pcof_finish_close_same. cbn. lia.
       * rewrite (pcof_of_pcu _ _ _ _ (pcu_set_pc _ t _)). cbn. lia.
     + (* CFeed *) rewrite (pcof_of_pcu _ _ _ _ (pcu_finish _ t _)), prog_finish, prog_feed, P0. cbn. lia.
+    + (* CSend *) rewrite (pcof_of_pcu _ _ _ _ (pcu_finish _ t _)), prog_finish, prog_push, P0. cbn. lia.
+    + (* CPump: parks in recv() *)
+      rewrite (pcof_of_pcu _ _ _ _ (pcu_set_task s0 t _)). cbn. rewrite upd_same. cbn. lia.
+    + (* CPump: the closed flag is seen *)
+      match goal with |- context [set_pump_done (finish ?X t ?r)] =>
+        change (pcof (set_pump_done (finish X t r)) t) with (pcof (finish X t r) t);
+        change (tasks (set_pump_done (finish X t r)) t) with (tasks (finish X t r) t);
+        rewrite (pcof_of_pcu _ _ _ _ (pcu_finish X t r)), prog_finish end.
+      cbn. rewrite upd_same. cbn. lia.
+    + (* CPump: submits the frame *)
+      match goal with |- context [set_task ?X t ?v] => rewrite (pcof_of_pcu _ _ _ _ (pcu_set_task X t v)) end.
+      cbn. rewrite upd_same. cbn. lia.
+    + (* CPump: takes the receiver *)
+      rewrite (pcof_of_pcu _ _ _ _ (pcu_finish _ t _)), prog_finish. cbn. rewrite upd_same. cbn. lia.
   - destruct (closed s); [|destruct (buffering s)]; inversion H; subst; unfold mu.
     + rewrite (pcof_of_pcu _ _ _ _ (pcu_finish_w s t k _)), prog_finish_w. cbn. lia.
-    + rewrite (pcof_of_pcu _ _ _ _ (pcu_set_pc s t _)), prog_set_pc. cbn. lia.
-    + rewrite (pcof_of_pcu _ _ _ _ (pcu_set_pc s t _)), prog_set_pc. cbn. lia.
+    + rewrite (pcof_of_pcu _ _ _ _ (pcu_set_task s t _)). cbn. rewrite upd_same. destruct k; cbn; lia.
+    + rewrite (pcof_of_pcu _ _ _ _ (pcu_set_task s t _)). cbn. rewrite upd_same. destruct k; cbn; lia.
   - inversion H; subst; unfold mu. rewrite (pcof_of_pcu _ _ _ _ (pcu_finish_w _ t k _)), prog_finish_w. cbn. lia.
   - destruct (wr s); inversion H; subst; unfold mu;
       rewrite (pcof_of_pcu _ _ _ _ (pcu_set_pc _ t _)), prog_set_pc; cbn; lia.
@@ -144,25 +176,28 @@ Proof.
   - inversion H; subst; unfold mu. rewrite prog_enter_close. unfold enter_close. destruct (closed s).
     + rewrite pcof_finish_close_same. cbn. lia.
     + rewrite (pcof_of_pcu _ _ _ _ (pcu_set_pc _ t _)). cbn. lia.
-  - inversion H; subst; unfold mu. rewrite (pcof_of_pcu _ _ _ _ (pcu_set_pc _ t _)), prog_set_pc. cbn [tasks set_table set_tasks].
-    rewrite prog_drain. cbn. lia.
+  - cbv zeta in H. inversion H; subst; unfold mu. rewrite (pcof_of_pcu _ _ _ _ (pcu_set_pc _ t _)), prog_set_pc. cbn [tasks set_table set_tasks].
+    rewrite prog_drain, prog_wake. cbn. lia.
   - destruct (wr s); inversion H; subst; unfold mu.
     + rewrite (pcof_of_pcu _ _ _ _ (pcu_set_pc _ t _)), prog_set_pc. cbn. lia.
     + rewrite pcof_finish_close_same, prog_finish_close. cbn. lia.
   - discriminate.
   - inversion H; subst; unfold mu. rewrite (pcof_of_pcu _ _ _ _ (pcu_set_task _ t _)). cbn. rewrite upd_same. cbn. lia.
   - inversion H; subst; unfold mu. rewrite (pcof_of_pcu _ _ _ _ (pcu_set_task s t _)). cbn. rewrite upd_same. cbn. lia.
+  - discriminate.
 Qed.
 
 Theorem step_other_mu s t s' w :
-  Inv s -> step s t = Some s' -> w <> t -> w <> rtid -> mu s' w = mu s w.
+  Inv s -> step s t = Some s' -> w <> t -> w <> rtid -> mu s' w <= mu s w.
 Proof.
   intros HI H Hw Hr. unfold mu. rewrite (step_other_prog s t s' w H Hw).
-  destruct (step_others s t s' HI H w Hw) as [[E|[(k & f & A & B)|(a & k & A & B & _)]]|(A & _)].
-  - rewrite E. reflexivity.
-  - rewrite A, B. reflexivity.
-  - rewrite A, B. reflexivity.
+  destruct (step_others s t s' HI H w Hw) as [[E|[(k & f & A & B)|(a & k & A & B & _)]]|[(A & _)|(A & [B|[f B]])]].
+  - rewrite E. lia.
+  - rewrite A, B. cbn. lia.
+  - rewrite A, B. cbn. lia.
   - contradiction.
+  - rewrite A, B. cbn. lia.
+  - rewrite A, B. cbn. lia.
 Qed.
 
 (* number of steps task t actually takes under a schedule *)
@@ -185,7 +220,7 @@ Proof.
     + specialize (IH s1 (step_inv s u s1 HI E)).
       destruct (Nat.eqb_spec u t) as [->|Hne].
       * pose proof (step_self_mu s t s1 HI E). lia.
-      * rewrite (step_other_mu s u s1 t HI E) in IH by auto. lia.
+      * pose proof (step_other_mu s u s1 t HI E (not_eq_sym Hne) Hr). lia.
     + apply IH. exact HI.
 Qed.
 
